@@ -556,7 +556,14 @@ func checkC12(sc *Scenario, t *Truth) []Violation {
 				}
 				continue
 			}
-			for _, rn := range ReplicaNames(p.Name, p.Replicas) {
+			// the configured replicas and those a scale request added at run time
+			rns := ReplicaNames(p.Name, p.Replicas)
+			for _, rn := range sortedNames(liveAt) {
+				if strings.HasPrefix(rn, p.Name+"-") && sc.specOfReplica(rn) == p && !containsStr(rns, rn) {
+					rns = append(rns, rn)
+				}
+			}
+			for _, rn := range rns {
 				e := liveAt[rn]
 				if e == nil {
 					continue
@@ -569,6 +576,15 @@ func checkC12(sc *Scenario, t *Truth) []Violation {
 		}
 	}
 	return vs
+}
+
+func containsStr(l []string, s string) bool {
+	for _, x := range l {
+		if x == s {
+			return true
+		}
+	}
+	return false
 }
 
 func countDependents(sc *Scenario, dep string, live map[string]*Inst) int {
